@@ -24,6 +24,7 @@ class Case:
     timeout: float = 5.0
     fuel: int = 3_000_000
     skip_model: bool = False
+    timeout_fails: bool = False      # not finishing within `timeout` is itself a failure (termination is the property)
 
     def key(self):
         return (self.program, self.stdin, self.mode, self.argv, repr(sorted((self.fs or {}).items())))
@@ -82,6 +83,11 @@ def run_case(case: Case):
         rec['detail'] = {'impl': small(a)}
         return rec
     if a['kind'] == 'timeout':
+        if case.timeout_fails:
+            rec['status'] = 'monitor-fail'
+            rec['why'] = f'did not complete within {case.timeout:g} s [tag={case.tag}]'
+            rec['detail'] = {'impl': small(a)}
+            return rec
         rec['status'] = 'timeout'
         return rec
     # variants: must be observably identical on the implementation
